@@ -26,7 +26,10 @@ impl StructType {
 
 impl Hash for StructType {
     fn hash<H: std::hash::Hasher>(&self, state: &mut H) {
-        self.0.keys().collect::<Box<[&Arc<str>]>>().hash(state)
+        // equal maps must hash equally whatever their iteration order
+        let mut keys = self.0.keys().collect::<Box<[&Arc<str>]>>();
+        keys.sort();
+        keys.hash(state)
     }
 }
 
